@@ -210,47 +210,73 @@ structure Job where
 def header (j : Job) (shape : List Nat) : String :=
   "ok t0=" ++ toString (t0Ps j.off j.si) ++ " si=" ++ toString j.si ++ " shape=" ++ showNatList (squeeze shape)
 
-/-- event-coded series input (`_is_ts = True`) for one sign variant -/
-def runSeries (cur : Bool) (j : Job) : String :=
-  if j.off < 0 then "err ValueError" else   -- np.zeros with a negative dimension
+/-- padded event series of channel `ch` (1-d events are broadcast to every channel) -/
+def evOf (j : Job) (ch : Nat) : Nat → Int :=
+  padFn 0 j.off.toNat j.N (fun i => getI j.ev ((if j.evch = 0 then 0 else ch) * j.N + i))
+
+/-- padded data of channel `ch` -/
+def dataOf (j : Job) (ch : Nat) : Nat → Rat :=
+  padFn 0 j.off.toNat j.N (fun i => getR j.data (ch * j.N + i))
+
+def nPadOf (j : Job) : Nat := j.off.toNat + j.N + j.L
+
+/-- `event_types` of channel `ch` -/
+def typesOf (j : Job) (ch : Nat) : List Int := eventTypes ((List.range (nPadOf j)).map (evOf j ch))
+
+/-- a window of some event would leave the padded array (numpy IndexError) -/
+def windowBad (j : Job) : Bool :=
+  (List.range (max j.nch 1)).any fun ch => (typesOf j ch).any fun t =>
+    (positions (nPadOf j) (evOf j ch) t).any fun k => j.L > 0 && k + j.off.toNat + j.L > nPadOf j
+
+def isErr (r : Except String (List Rat)) : Bool := match r with | .error _ => true | .ok _ => false
+def okVal (r : Except String (List Rat)) : List Rat := match r with | .ok x => x | .error _ => []
+
+/-- un-squeezed shape and flat (rendered) values of FIR / eta / ets -/
+structure Out where
+  shape : List Nat
+  data : List String
+
+/-- `FIR` / `eta` / `ets` for an event-coded series input (`_is_ts = True`), one sign variant:
+    per-channel loop, reshape by event type, `np.array(h)` (ragged → ValueError) -/
+def seriesOut (cur : Bool) (j : Job) : Except String Out :=
+  if j.off < 0 then .error "err ValueError" else   -- np.zeros with a negative dimension
   let o := j.off.toNat
   let C := max j.nch 1
-  let nPad := o + j.N + j.L
-  let evOf (ch : Nat) : Nat → Int :=
-    padFn 0 o j.N (fun i => getI j.ev ((if j.evch = 0 then 0 else ch) * j.N + i))
-  let dataOf (ch : Nat) : Nat → Rat := padFn 0 o j.N (fun i => getR j.data (ch * j.N + i))
-  let typesOf (ch : Nat) : List Int := eventTypes ((List.range nPad).map (evOf ch))
-  let T := (typesOf 0).length
-  if (List.range C).any (fun ch => (typesOf ch).length != T) then "err ValueError" else
+  let T := (typesOf j 0).length
+  if (List.range C).any (fun ch => (typesOf j ch).length != T) then .error "err ValueError" else
   if j.what = "fir" then
-    let res := (List.range C).map fun ch => firChannel cur nPad (evOf ch) (dataOf ch) o j.L
-    match res.find? (fun r => match r with | .error _ => true | .ok _ => false) with
-    | some (.error e) => e
-    | _ =>
-      let flat := res.flatMap fun r => match r with | .ok x => x | .error _ => []
-      header j [C, T, j.L] ++ " data=" ++ joinList (flat.map showRatAsFloat)
+    let res := (List.range C).map fun ch => firChannel cur (nPadOf j) (evOf j ch) (dataOf j ch) o j.L
+    match res.find? isErr with
+    | some (.error e) => .error e
+    | _ => .ok ⟨[C, T, j.L], (res.flatMap okVal).map showRatAsFloat⟩
   else
-    -- eta / ets / etdata : windows must stay inside the padded array (numpy IndexError otherwise)
-    let bad := (List.range C).any fun ch => (typesOf ch).any fun t =>
-      (positions nPad (evOf ch) t).any fun k => j.L > 0 && k + o + j.L > nPad
-    if bad then "err IndexError" else
+    if windowBad j then .error "err IndexError" else
     if j.what = "eta" then
-      let flat := (List.range C).flatMap fun ch => (typesOf ch).flatMap fun t =>
-        let idx := positions nPad (evOf ch) t
-        (List.range j.L).map fun jj => showRatAsFloat (etaRow j.cb (dataOf ch) idx o jj)
-      header j [C, T, j.L] ++ " data=" ++ joinList flat
+      .ok ⟨[C, T, j.L], (List.range C).flatMap fun ch => (typesOf j ch).flatMap fun t =>
+        (List.range j.L).map fun jj =>
+          showRatAsFloat (etaRow j.cb (dataOf j ch) (positions (nPadOf j) (evOf j ch) t) o jj)⟩
     else if j.what = "ets" then
-      let flat := (List.range C).flatMap fun ch => (typesOf ch).flatMap fun t =>
-        let idx := positions nPad (evOf ch) t
-        (List.range j.L).map fun jj => semOut idx.length (semSqRow j.cb (dataOf ch) idx o jj)
-      header j [C, T, j.L] ++ " data=" ++ joinList flat
-    else if j.what = "etdata" then
-      let blocks := (List.range C).flatMap fun ch => (typesOf ch).map fun t =>
-        let idx := positions nPad (evOf ch) t
-        (idx.length, idx.flatMap fun k => (List.range j.L).map fun jj => showRatAsFloat (dataOf ch (k + o + jj)))
-      "ok t0=" ++ toString (t0Ps j.off j.si) ++ " si=" ++ toString j.si ++
-        " blocks=" ++ showNatList (blocks.map (·.1)) ++ " data=" ++ joinList (blocks.flatMap (·.2))
-    else "bad-op"
+      .ok ⟨[C, T, j.L], (List.range C).flatMap fun ch => (typesOf j ch).flatMap fun t =>
+        let idx := positions (nPadOf j) (evOf j ch) t
+        (List.range j.L).map fun jj => semOut idx.length (semSqRow j.cb (dataOf j ch) idx o jj)⟩
+    else .error "bad-op"
+
+/-- event-coded series input: line-protocol rendering of `seriesOut`, and `et_data` -/
+def runSeries (cur : Bool) (j : Job) : String :=
+  if j.what = "etdata" then
+    if j.off < 0 then "err ValueError" else
+    let o := j.off.toNat
+    let C := max j.nch 1
+    if windowBad j then "err IndexError" else
+    let blocks := (List.range C).flatMap fun ch => (typesOf j ch).map fun t =>
+      let idx := positions (nPadOf j) (evOf j ch) t
+      (idx.length, idx.flatMap fun k => (List.range j.L).map fun jj => showRatAsFloat (dataOf j ch (k + o + jj)))
+    "ok t0=" ++ toString (t0Ps j.off j.si) ++ " si=" ++ toString j.si ++
+      " blocks=" ++ showNatList (blocks.map (·.1)) ++ " data=" ++ joinList (blocks.flatMap (·.2))
+  else
+    match seriesOut cur j with
+    | .error e => e
+    | .ok out => header j out.shape ++ " data=" ++ joinList out.data
 
 /-- `Events` input: `ev` holds the event times in picoseconds -/
 def runEvents (cb : Bool) (j : Job) : String :=
@@ -328,8 +354,39 @@ def both (neg : Bool) (f : Bool → String) : String :=
     if a = b then a else a ++ " || " ++ b
   else a
 
+/-! ## one analyzer object, several reads
+
+The analyzer's getters (`FIR`, `eta`, `ets`, `et_data`) are `setattr_on_read` one-time properties: the
+first read computes the value from the constructor inputs and stores it, later reads return the
+stored value.  In the model the inputs are not part of the mutable state at all — the state is only
+the cache — so a read cannot change them; `value` is the pure getter function of the inputs. -/
+
+/-- one read: cached value if present, else compute and cache -/
+def readC (value : String → String) (cache : List (String × String)) (w : String) :
+    String × List (String × String) :=
+  match cache.lookup w with
+  | some v => (v, cache)
+  | none => (value w, (w, value w) :: cache)
+
+/-- a sequence of reads on one object: the returned values, and the final cache -/
+def readsC (value : String → String) : List (String × String) → List String → List String × List (String × String)
+  | cache, [] => ([], cache)
+  | cache, w :: ws =>
+    let r := readC value cache w
+    let rs := readsC value r.2 ws
+    (r.1 :: rs.1, rs.2)
+
+/-- the getter `w` of the analyzer built from job `j` (series or Events input) -/
+def getterValue (kind : String) (j : Job) (w : String) : String :=
+  let j' := { j with what := w }
+  if kind = "series" then runSeries true j' else runEvents j'.cb j'
+
 def handle (args : List String) : String :=
   match args with
+  | "seq" :: order :: kind :: rest =>
+    match parseJob? rest with
+    | some j => " ;; ".intercalate (readsC (getterValue kind j) [] (order.splitOn ",")).1
+    | none => "bad-args"
   | "series" :: rest =>
     match parseJob? rest with
     | some j => if j.what = "fir" then both (hasNeg j) (fun cur => runSeries cur j) else runSeries true j
